@@ -59,7 +59,7 @@ func classifyErr(err error) string {
 	case strings.Contains(s, "no tasks to execute") || strings.Contains(s, "unknown node: end"):
 		// all-predecessor mode reports a skipped END as "unknown node: end"
 		return "notasks"
-	case strings.Contains(s, "cannot find input key") || strings.Contains(s, "inputStreamFilter failed") || strings.Contains(s, "stream reader is empty, concat fail"):
+	case strings.Contains(s, "cannot find input key") || strings.Contains(s, "inputStreamFilter failed") || strings.Contains(s, "stream reader is empty, concat fail") || strings.Contains(s, "gkit: empty input stream"):
 		return "inputkey"
 	case strings.Contains(s, "duplicated key") || strings.Contains(s, "(mergeValues") || strings.Contains(s, "(mergeMap)") || strings.Contains(s, "(mergeStream)"):
 		return "merge"
